@@ -390,3 +390,68 @@ pub fn shrink(
     }
     best
 }
+
+/// outcome of one structured case (file-level, schedule-level, history-level)
+#[derive(Clone, Debug)]
+pub struct Fail {
+    pub class: &'static str, // "spec" | "model"
+    pub detail: String,
+    pub theorem: &'static str,
+    pub impl_out: String,
+    pub model_out: String,
+}
+
+/// greedy shrinking for structured cases: keep replacing the case by the first candidate that
+/// still fails in the same class
+pub fn shrink_struct<T: Clone>(
+    case: T,
+    first: Fail,
+    eval: &dyn Fn(&T) -> Option<Fail>,
+    cands: &dyn Fn(&T) -> Vec<T>,
+    budget: usize,
+) -> (T, Fail) {
+    let mut best = (case, first);
+    let mut used = 0;
+    loop {
+        let mut progressed = false;
+        for c in cands(&best.0) {
+            used += 1;
+            if used > budget {
+                return best;
+            }
+            if let Some(f) = eval(&c) {
+                if f.class == best.1.class {
+                    best = (c, f);
+                    progressed = true;
+                    break;
+                }
+            }
+        }
+        if !progressed {
+            return best;
+        }
+    }
+}
+
+impl Report {
+    /// record a structured failure (already shrunk); `req` must replay the case
+    pub fn push_fail(&mut self, section: &str, desc: String, req: String, f: Fail, shrunk_from: usize) {
+        self.failures.push(Failure {
+            class: f.class,
+            case_desc: format!("[{}] {}", section, desc),
+            req,
+            impl_out: f.impl_out,
+            model_out: f.model_out,
+            detail: f.detail,
+            theorem: f.theorem.to_string(),
+            info: false,
+            shrunk_from,
+        });
+    }
+    pub fn fail_count(&self, section: &str, class: &str) -> usize {
+        self.failures
+            .iter()
+            .filter(|f| f.class == class && f.case_desc.starts_with(&format!("[{}]", section)))
+            .count()
+    }
+}
